@@ -124,14 +124,16 @@ impl Manifest {
             return Ok(vec![]);
         };
 
-        let mut data = String::new();
+        // Read bytes, not a `String`: an append torn inside a multi-byte character (a non-ASCII
+        // identifier) must end up as an incomplete last record, not as an invalid-UTF-8 I/O error.
+        let mut data = Vec::new();
         file.seek(SeekFrom::Start(0)).await?;
         let mut reader = BufReader::new(file);
 
         // TODO: don't read all to memory
-        reader.read_to_string(&mut data).await?;
+        reader.read_to_end(&mut data).await?;
 
-        let stream = Deserializer::from_str(&data).into_iter::<ManifestOperation>();
+        let stream = Deserializer::from_slice(&data).into_iter::<ManifestOperation>();
 
         let mut ops = vec![];
         let mut buffered_ops = vec![];
